@@ -317,7 +317,9 @@ func (fv *FV) wfCond(term, sort string, bound string, depth int) []string {
 	}
 	switch sort {
 	case "Slice":
-		return []string{fmt.Sprintf("(<= (sref %s) %s)", term, bound), fmt.Sprintf("(<= 0 (sref %s))", term)}
+		// a slice stored in the heap is as well-formed as one held in a variable
+		return []string{fmt.Sprintf("(<= (sref %s) %s)", term, bound), fmt.Sprintf("(<= 0 (sref %s))", term),
+			fmt.Sprintf("(<= 0 (slen %s))", term), fmt.Sprintf("(<= (slen %s) (scap %s))", term, term), fmt.Sprintf("(<= 0 (soff %s))", term)}
 	case "Iface":
 		return []string{fmt.Sprintf("(<= (ival %s) %s)", term, bound)}
 	}
